@@ -141,6 +141,26 @@ def lowest_stop(fn):
     return bool(assigned and idx_stop is not None and idx_stop < idx_ppid)
 
 
+def gone_raises(fn):
+    """_raise_if_pid_reused(): after the `_pid_reused` test, an `if self._gone:` whose body raises
+    NoSuchProcess."""
+    idx_reused = None
+    for i, st in enumerate(fn.body):
+        if not isinstance(st, ast.If):
+            continue
+        names = {extract.dotted(n) for n in ast.walk(st.test) if isinstance(n, ast.Attribute)}
+        raises = any(isinstance(x, ast.Raise) and x.exc is not None and "NoSuchProcess" in extract.unparse(x.exc)
+                     for x in ast.walk(_wrap(st.body)))
+        if "self._pid_reused" in names and raises and idx_reused is None:
+            idx_reused = i
+            continue
+        if idx_reused is not None and extract.dotted(st.test) == "self._gone" and raises:
+            return True
+    if idx_reused is None:
+        raise NotRecognised("_raise_if_pid_reused(): the `_pid_reused` test was not found")
+    return False
+
+
 def _find_flag(call):
     f = extract.dotted(call.func)
     if f.endswith(".rfind"):
@@ -248,6 +268,8 @@ def facts(snap, F):
               "ppid() starts with self._raise_if_pid_reused()")
     F.try_add("lowestStop", "Bool", lambda: extract.lean_bool(lowest_stop(fn("parent"))),
               "parent() returns None for self.pid == (_LOWEST_PID or pids()[0]) before calling ppid()")
+    F.try_add("goneRaises", "Bool", lambda: extract.lean_bool(gone_raises(fn("_raise_if_pid_reused"))),
+              "_raise_if_pid_reused() also raises NoSuchProcess when self._gone is set (after the reused test)")
     pm = {}
 
     def pmf():
